@@ -1,5 +1,5 @@
 """C08 — program-level three-way comparison (Go interpreter, Lean model evaluator, Lean spec semantics)."""
-from props import progs
+from props import progs, sites
 from props.progs import replay  # noqa
 
 GEN = 'call'
@@ -23,6 +23,7 @@ PARTIAL = "computed properties (何为) are compiled but never consulted by the 
 
 
 def run(ctx):
+    sites.report(ctx)   # regenerated site inventory vs the modelled sites (diagnosis of a broken obligation; DESIGN §12)
     g = progs.G(ctx.rng)
     n = ctx.n(1500, 40000)
     ps = [g.call_program() for _ in range(n)]
